@@ -312,13 +312,20 @@ def unlines (ls : List Bytes) : Bytes := (ls.map (· ++ [10])).flatten
 
 def dropHeader (c : Nat) (bs : Bytes) : Bytes := unlines (dropHeaderLines c (linesOf bs)) ++ tailOf bs
 
+/-- `buffer[idx]`: the rows of the (start, end) table picked by position before anything is parsed -/
+def pickRows {α} : Option (List Nat) → List α → List α
+  | none, rows => rows
+  | some idx, rows => idx.filterMap (rows[·]?)
+
+@[simp] theorem pickRows_none {α} (rows : List α) : pickRows none rows = rows := rfl
+
 /-- plain delimited formats -/
-def parseDelimited (S : Schema) (bs : Bytes) : Except Err (Nat × List Col) :=
+def parseDelimited (S : Schema) (bs : Bytes) (sel : Option (List Nat) := none) : Except Err (Nat × List Col) :=
   let data := complete bs                       -- the extractor holds `chunk[:size]`
   match fieldTable S.delim bs with
   | .error e => .error e
   | .ok t =>
-    let rows := crAdjustRows data t.rows
+    let rows := pickRows sel (crAdjustRows data t.rows)
     match typedColumns (S.cols.map (·.2)) data rows with
     | .error e => .error e
     | .ok cols => .ok (rows.length, cols)
@@ -409,8 +416,9 @@ def samRows (d : Nat) (k : Nat) (bs : Bytes) : Except Err (List (List (Nat × Na
   if ld.any (fun r => r.length < k) then .error .shape else
   .ok ((List.zip prevs ld).map (fun pr => samRow data cr k pr.1 pr.2))
 
-def parseSam (S : Schema) (bs : Bytes) : Except Err (Nat × List Col) := do
-  let rows ← samRows S.delim 11 bs
+def parseSam (S : Schema) (bs : Bytes) (sel : Option (List Nat) := none) : Except Err (Nat × List Col) := do
+  let rows0 ← samRows S.delim 11 bs
+  let rows := pickRows sel rows0
   let cols ← typedColumns ((S.cols.map (·.2)).take 11) bs (rows.map (·.1))
   pure (rows.length, cols ++ [Col.strs (rows.map (fun r => slice bs r.2.1 r.2.2))])
 
@@ -447,9 +455,10 @@ def klineValid (marker : Nat) (k : Nat) (bs : Bytes) (rows : List (List (Nat × 
     | some p => bs.getD p.1 0 = 43
     | none => false))
 
-def parseKline (S : Schema) (bs : Bytes) : Except Err (Nat × List Col) := do
-  let rows ← klineRows S.linesPerEntry S.lineOffsets bs
-  if !klineValid S.marker S.linesPerEntry bs rows then .error (.format 0) else
+def parseKline (S : Schema) (bs : Bytes) (sel : Option (List Nat) := none) : Except Err (Nat × List Col) := do
+  let rows0 ← klineRows S.linesPerEntry S.lineOffsets bs
+  if !klineValid S.marker S.linesPerEntry bs rows0 then .error (.format 0) else
+  let rows := pickRows sel rows0
   let txt := fun (j : Nat) => (columnOf rows j).map (fun p => slice bs p.1 p.2)
   let name := Col.strs (((paddedMatrix bs (columnOf rows 0)).map stripNul))
   let seq := Col.strs (txt 1)
@@ -649,18 +658,50 @@ def parseVcfX (S : Schema) (shift : Int) (flavour : String) (defs : List (String
     pure (Sum.inr cs)
   pure ⟨rows.length, shiftCol 1 shift cols, info, genotypeColumn flavour bs rows⟩
 
+/-! ## GTF / GFF3 attributes read by key (`GTFEntry._get_attributes`, `GFFEntry._get_attributes`) -/
+
+/-- `re.findall(key + ' "(.*?)"', text)` with the key required to start a word: scan from the left; at a position
+where `key "` starts (and the byte before is not a word character) the value runs up to the next `"` and the scan
+goes on after it; elsewhere it advances by one byte -/
+def isWordByte (b : Nat) : Bool := isDigit b || (65 ≤ b && b ≤ 90) || (97 ≤ b && b ≤ 122) || b == 95
+
+def gtfScan (key : Bytes) : Nat → Bool → Bytes → List Bytes
+  | 0, _, _ => []
+  | _, _, [] => []
+  | fuel + 1, prevWord, b :: t =>
+    let pat := key ++ [32, 34]
+    if !prevWord && (b :: t).take pat.length == pat then
+      let rest := (b :: t).drop pat.length
+      let v := rest.takeWhile (· != 34)
+      if v.length < rest.length then v :: gtfScan key fuel false (rest.drop (v.length + 1))   -- closing quote found
+      else gtfScan key fuel (isWordByte b) t
+    else gtfScan key fuel (isWordByte b) t
+
+/-- GTF: all values of the key in the flattened attribute text of the selected rows -/
+def gtfAttr (key : Bytes) (attrs : List Bytes) : List Bytes :=
+  gtfScan key (attrs.flatten.length + 1) false attrs.flatten
+
+/-- GFF3: the attribute texts joined by `;`, split at `;` and `=`; keys are the even pieces, values the odd ones -/
+def gffAttr (key : Bytes) (attrs : List Bytes) : List Bytes :=
+  let ps := pieces (fun b => b == 59 || b == 61) (joinWith 59 attrs ++ [59])
+  let rec pairUp : List Bytes → List (Bytes × Bytes)
+    | k :: v :: rest => (k, v) :: pairUp rest
+    | _ => []
+  ((pairUp ps).filter (fun kv => kv.1 == key)).map (·.2)
+
 /-- GFA S-lines: the record type column is skipped -/
-def parseFile (fmt : String) (S : Schema) (viaOpen : Bool) (bs0 : Bytes) (vcfShift : Int := -1) : Except Err (Nat × List Col) :=
+def parseFile (fmt : String) (S : Schema) (viaOpen : Bool) (bs0 : Bytes) (vcfShift : Int := -1)
+    (sel : Option (List Nat) := none) : Except Err (Nat × List Col) :=
   let bs := if viaOpen then ensureNl (dropHeader S.comment bs0) else bs0
   if fmt = "fasta" then parseFasta S bs0
-  else if S.linesPerEntry > 1 then parseKline S bs
-  else if fmt = "sam" then parseSam S bs
+  else if S.linesPerEntry > 1 then parseKline S bs sel
+  else if fmt = "sam" then parseSam S bs sel
   else if fmt = "vcf" then parseVcf S vcfShift bs
   else if S.interiorComments then parseCommented S bs
   else if fmt = "gfa" then
-    parseDelimited { S with cols := [("type", "str"), ("name", "id"), ("sequence", "str")] } bs
+    parseDelimited { S with cols := [("type", "str"), ("name", "id"), ("sequence", "str")] } bs sel
       |>.map (fun r => (r.1, r.2.drop 1))
-  else parseDelimited S bs
+  else parseDelimited S bs sel
 
 /-- a text uses CRLF line ends when every line, except possibly the last one (which may lack its terminator or
 carry a bare LF), ends in CR — and at least one does; then the CR is not part of any line -/
